@@ -163,11 +163,13 @@ def Req.encOk (q : Req) : Bool := q.certs.all id
 
 inductive HookKind where
   | scep | notify
-  | other   -- ENRICHING, AUTHORIZING, NO_KIND or a string that is no kind at all
+  | other     -- ENRICHING, AUTHORIZING: a kind, never consulted for the challenge
+  | unknown   -- NO_KIND or a string that is no kind at all ("scepchallenge"): `Init` refuses it
   deriving Repr, DecidableEq
 
 inductive CertType where
   | x509 | ssh | all | unset
+  | unknown   -- a non-empty string that is no certificate type ("x509"): `Init` refuses it
   deriving Repr, DecidableEq
 
 inductive HookRes where
@@ -732,9 +734,10 @@ structure ProvCfg where
   deriving Repr, DecidableEq
 
 /-- webhook certificate type through `Webhook_CertType_value[…]` and back through `.String()`:
-    the unset type comes back as "ALL" -/
+    the unset type — and any string that is no type at all — comes back as "ALL" -/
 def rtCertType : CertType → CertType
   | .unset => .all
+  | .unknown => .all
   | c => c
 
 def rtHook (h : Hook) : Hook := { h with ct := rtCertType h.ct }
@@ -744,12 +747,29 @@ def rtHook (h : Hook) : Hook := { h with ct := rtCertType h.ct }
 def roundTrip (p : ProvCfg) : ProvCfg :=
   { p with cfg := { p.cfg with hooks := p.cfg.hooks.map rtHook } }
 
-/-- `Init`: the minimum key length defaults to 2048; identifiers outside 0..4 are refused
-    (the provisioner is then not a usable SCEP provisioner: `none`). -/
+/-- `k` conversions to the admin database and back -/
+def roundTrips : Nat → ProvCfg → ProvCfg
+  | 0, p => p
+  | k + 1, p => roundTrips k (roundTrip p)
+
+/-- `Webhook.validate` (called by `NewController` for every configured webhook): the kind is one of
+    the names of `linkedca.Webhook_Kind` other than NO_KIND, the certificate type is empty or one of
+    the names of `linkedca.Webhook_CertType`. -/
+def Hook.wellSpelt (h : Hook) : Bool := h.kind != .unknown && h.ct != .unknown
+
+/-- `Init`: the minimum key length defaults to 2048; identifiers outside 0..4 and webhooks with a
+    mis-spelt kind or certificate type are refused (the provisioner is then not a usable SCEP
+    provisioner: `none`; the collection holds a `provisioner.Uninitialized`). -/
 def initDefaults (p : ProvCfg) : Option ProvCfg :=
-  if p.encAlg > 4 then none
+  if !(p.cfg.hooks.all Hook.wellSpelt) then none
+  else if p.encAlg > 4 then none
   else if p.minKeyLen % 8 ≠ 0 then none
   else some { p with minKeyLen := if p.minKeyLen = 0 then 2048 else p.minKeyLen }
+
+/-- What `lookupProvisioner` finds for a name that resolves to this configuration: a provisioner
+    `Init` refused is a `provisioner.Uninitialized`, not a `*provisioner.SCEP`. -/
+def lookupOf (found : Lookup) (p : ProvCfg) : Lookup :=
+  if found = .scep ∧ (initDefaults p).isNone then .otherType else found
 
 /-- the field tables of the four conversion functions (destination field ← source expression),
     re-extracted from the source on every run -/
